@@ -416,6 +416,12 @@ pub trait Prop: Sync {
             Tier::Thorough => 3600,
         }
     }
+    /// true for a property that is itself about reproducibility (C18): an oracle failure seen by the explorer that a
+    /// fresh process does not show again (or shows differently from run to run) is then a violation of the property,
+    /// not a fault of the machinery
+    fn irreproducibility_is_violation(&self) -> bool {
+        false
+    }
     /// enumerate the space; call `ctx.claim()` per case; call `ctx.finish()` at the end
     fn explore(&self, ctx: &mut Ctx);
     /// re-execute one case straight-line and apply the oracle
